@@ -64,6 +64,8 @@ def _unpad_openssh(data):
     # At the moment, this is only used for unpadding private keys on disk. This
     # really ought to be made constant time (possibly by upstreaming this logic
     # into pyca/cryptography).
+    if not data:
+        raise SSHException("Invalid key")
     padding_length = data[-1]
     if 0x20 <= padding_length < 0x7F:
         return data  # no padding, last byte part comment (printable ascii)
@@ -642,7 +644,7 @@ class PKey:
             else:
                 raise SSHException(
                     "unknown cipher `{}` used in private key file".format(
-                        cipher.decode("utf-8")
+                        cipher.decode("utf-8", "replace")
                     )
                 )
             # Encrypted private key.
@@ -656,25 +658,30 @@ class PKey:
             # Unpack salt and rounds from kdfoptions
             salt, rounds = self._uint32_cstruct_unpack(kdf_options, "su")
 
-            # run bcrypt kdf to derive key and iv/nonce (32 + 16 bytes)
-            key_iv = bcrypt.kdf(
-                b(password),
-                b(salt),
-                48,
-                rounds,
-                # We can't control how many rounds are on disk, so no sense
-                # warning about it.
-                ignore_few_rounds=True,
-            )
-            key = key_iv[:32]
-            iv = key_iv[32:]
+            try:
+                # run bcrypt kdf to derive key and iv/nonce (32 + 16 bytes)
+                key_iv = bcrypt.kdf(
+                    b(password),
+                    b(salt),
+                    48,
+                    rounds,
+                    # We can't control how many rounds are on disk, so no
+                    # sense warning about it.
+                    ignore_few_rounds=True,
+                )
+                key = key_iv[:32]
+                iv = key_iv[32:]
 
-            # decrypt private key blob
-            decryptor = Cipher(
-                algorithms.AES(key), mode(iv), default_backend()
-            ).decryptor()
-            decrypted_privkey = decryptor.update(privkey_blob)
-            decrypted_privkey += decryptor.finalize()
+                # decrypt private key blob
+                decryptor = Cipher(
+                    algorithms.AES(key), mode(iv), default_backend()
+                ).decryptor()
+                decrypted_privkey = decryptor.update(privkey_blob)
+                decrypted_privkey += decryptor.finalize()
+            except ValueError:
+                raise SSHException(
+                    "Bad password or corrupt private key file"
+                )
         elif cipher == b("none") and kdfname == b("none"):
             # Unencrypted private key
             decrypted_privkey = privkey_blob
